@@ -245,14 +245,14 @@ Proof. reflexivity. Qed.
 
 Definition CTX (g : tree) (mx : option Z) : Prop :=
   in_frag g = true /\ tokdata_ok g = true /\ (forall x, In x (short_ifs g) -> LS x = true) /\
-  (forall j, In j (leaves g) -> j < lim ts mx).
+  (forall j, In j (leaves g) -> fence_ok mx j = true).
 
 Definition CTXL (l : list tree) (mx : option Z) : Prop := Forall (fun c => CTX c mx) l.
 
 Lemma CTX_fields (l : list tree) mx :
   forallb in_frag l = true -> forallb tokdata_ok l = true ->
   (forall x, In x (flat_map short_ifs l) -> LS x = true) ->
-  (forall j, In j (flat_map leaves l) -> j < lim ts mx) -> CTXL l mx.
+  (forall j, In j (flat_map leaves l) -> fence_ok mx j = true) -> CTXL l mx.
 Proof.
   induction l as [|c l IH]; intros H1 H2 H3 H4; [constructor|].
   cbn [forallb flat_map] in *. apply andb_true_iff in H1, H2. destruct H1 as [H1a H1b], H2 as [H2a H2b].
@@ -275,7 +275,7 @@ Qed.
 Lemma CTX_lst l mx : CTX (Lst l) mx -> CTXL l mx.
 Proof. intros (H1 & H2 & H3 & H4). apply CTX_fields; assumption. Qed.
 
-Lemma CTX_paren i j x mx : CTX (Paren i j x) mx -> CTX x mx /\ i < lim ts mx /\ j < lim ts mx.
+Lemma CTX_paren i j x mx : CTX (Paren i j x) mx -> CTX x mx /\ fence_ok mx i = true /\ fence_ok mx j = true.
 Proof.
   intros (H1 & H2 & H3 & H4). split; [repeat split; try assumption|].
   - intros k Hk. apply H4. cbn [leaves app]. right. apply in_or_app. left. exact Hk.
@@ -287,10 +287,10 @@ Qed.
 Lemma CTX_hid x mx : CTX (Hid x) mx -> CTX x mx.
 Proof. intros H. exact H. Qed.
 
-Lemma CTX_kw i mx : CTX (Kw i) mx -> i < lim ts mx.
+Lemma CTX_kw i mx : CTX (Kw i) mx -> fence_ok mx i = true.
 Proof. intros (_ & _ & _ & H). apply H. left. reflexivity. Qed.
 
-Lemma CTX_tok i t mx : CTX (Tok i t) mx -> i < lim ts mx.
+Lemma CTX_tok i t mx : CTX (Tok i t) mx -> fence_ok mx i = true.
 Proof. intros (_ & _ & _ & H). apply H. left. reflexivity. Qed.
 
 Lemma CTX_tokdata i t u mx : CTX (Tok i t) mx -> ParserProofs.tok_at ts i = Some u -> tdata u = tdata t.
@@ -305,7 +305,7 @@ Lemma CTXL_app a b mx : CTXL (a ++ b) mx -> CTXL a mx /\ CTXL b mx.
 Proof. unfold CTXL. apply Forall_app. Qed.
 
 (* a different fence: only the fence part changes *)
-Lemma CTX_refence g mx mx' : CTX g mx -> (forall j, In j (leaves g) -> j < lim ts mx') -> CTX g mx'.
+Lemma CTX_refence g mx mx' : CTX g mx -> (forall j, In j (leaves g) -> fence_ok mx' j = true) -> CTX g mx'.
 Proof. intros (H1 & H2 & H3 & _) H4. repeat split; assumption. Qed.
 
 End Ctx.
